@@ -76,8 +76,14 @@ def roots_of(w):
     return r
 
 
+MEMO = "_Vertex__qa_nb_cache"
+
+
 def iso_form(root):
-    return _canon.canon_graph([root], uid="keep", return_nodes=True)
+    # the private neighbour memo is derived data, not an attribute in the property's sense: a
+    # pickler may or may not carry it over.  What the copy must do is *answer* like the original,
+    # which the query battery checks (with caching as it is, so a carried-over memo is exercised).
+    return _canon.canon_graph([root], uid="keep", return_nodes=True, skip_attrs=(MEMO,))
 
 
 def uid_battery(nodes):
@@ -136,8 +142,12 @@ def roundtrip_check(root, protocol, loader, via_file, flag):
     ids0 = {id(n) for n in nodes0}
     if any(id(n) in ids0 for n in nodes1):
         return "copy-shares-an-object-with-the-original"
+    Vertex.NEIGHBOR_CACHING = False          # reference answers; does not touch the original's memo
     b0 = uid_battery(nodes0)
+    Vertex.NEIGHBOR_CACHING = flag
     b1 = uid_battery(nodes1)
+    if b1 != uid_battery(nodes1):
+        return "query-answers-on-the-copy-change-between-two-passes"
     if b0 != b1:
         return "query-answers-differ-on-the-copy"
     return None
@@ -167,6 +177,10 @@ def classify(f0, f1):
 # ---------------------------------------------------------------------------------------
 class Sys:
     heavy_states = True
+    # every transition replays its history from scratch instead of deep-copying the pre-state:
+    # copy.deepcopy goes through the same __reduce_ex__/__getstate__ protocol as pickling, so a change
+    # to that protocol (which is what this property is about) must not be able to corrupt the explorer
+    rebuild = True
 
     def __init__(self, spec):
         self.spec = spec
